@@ -160,6 +160,63 @@ pub fn check_fn(f: &[usize], k: usize, start: usize, style: u8, form: u8, st: &m
     }
 }
 
+/// Re-entrancy: the rule handed to `stabilize` itself calls `stabilize` (a profile built from a
+/// stabilised sub-rule): f(x) = h(stabilize(x, g)). g and h range over all functions on the
+/// universe; the reference composes the two reference semantics.
+pub fn check_nested(g: &[usize], h: &[usize], k: usize, start: usize, st: &mut Stats) {
+    let names: Vec<String> = (0..k).map(name).collect();
+    let idx = |x: &str| names.iter().position(|n| n == x);
+    let apply = |f: &[usize], x: &str| -> Result<String, E> {
+        let i = idx(x).ok_or(E::Invalid)?;
+        if f[i] >= k {
+            Err(err_of(f[i], k))
+        } else {
+            Ok(names[f[i]].clone())
+        }
+    };
+    let apply_impl = |f: &[usize], x: &str| -> Result<String, Error> {
+        let i = idx(x).ok_or(Error::Invalid)?;
+        if f[i] >= k {
+            Err(impl_err(f[i], k))
+        } else {
+            Ok(names[f[i]].clone())
+        }
+    };
+    let outer_calls = RefCell::new(0usize);
+    let inner = constrain(|x: &str| -> Result<Cow<'_, str>, Error> { apply_impl(g, x).map(Cow::Owned) });
+    let outer = constrain(|x: &str| -> Result<Cow<'_, str>, Error> {
+        *outer_calls.borrow_mut() += 1;
+        let mid = stabilize(x, &inner)?;
+        apply_impl(h, &mid).map(Cow::Owned)
+    });
+    let s0 = names[start].clone();
+    let got = guard(|| stabilize(s0.as_str(), &outer).map(|c| c.into_owned()).map_err(|e| E::from_impl(&e)));
+    st.evaluations += 1;
+    st.traces += 1;
+    let f_ref = |x: &str| -> Result<String, E> {
+        let (mid, _) = ref_stabilize(x, |y| apply(g, y));
+        apply(h, &mid?)
+    };
+    let (exp, exp_calls) = ref_stabilize(&s0, f_ref);
+    let case = || Case::new("nested").n(k as u64).n(start as u64).x(json!([g, h]));
+    let descr = |r: &Result<String, E>| match r {
+        Ok(s) => format!("Ok({:?})", s),
+        Err(e) => format!("Err({:?})", e),
+    };
+    match got {
+        Err(p) => st.violation("panic", case, descr(&exp), format!("PANIC({})", p)),
+        Ok(got) => {
+            let n = *outer_calls.borrow();
+            if got != exp {
+                st.violation("nested_result", case, format!("{} after {} outer applications", descr(&exp), exp_calls), format!("{} after {}", descr(&got), n));
+            } else if n > 4 {
+                st.violation("too_many_calls", case, "at most 4 applications of the outer rule".into(), format!("{}", n));
+            }
+        }
+    }
+    st.count("out:nested");
+}
+
 fn decode(mut idx: u64, k: usize) -> Vec<usize> {
     let base = (k + 2) as u64;
     let mut f = vec![0usize; k];
@@ -226,12 +283,34 @@ pub fn run(_env: &Env, run: &Run) -> (Stats, Coverage) {
         st.merge(s);
     }
     check_diverging(&mut st);
+    // nested use: all pairs (g, h) of functions on a smaller universe
+    {
+        let kn = run.tier.pick(3usize, 4usize);
+        let basen = (kn + 2) as u64;
+        let nfn = basen.pow(kn as u32);
+        let shards: Vec<Stats> = (0..nfn * nfn)
+            .into_par_iter()
+            .fold(Stats::default, |mut st, idx| {
+                let g = decode(idx / nfn, kn);
+                let h = decode(idx % nfn, kn);
+                for start in 0..kn {
+                    st.states += 1;
+                    st.transitions += 1;
+                    check_nested(&g, &h, kn, start, &mut st);
+                }
+                st
+            })
+            .collect();
+        for s in shards {
+            st.merge(s);
+        }
+    }
     st.sample(json!({"universe": "element i = 'a' repeated i times (element 0 is the empty string)"}));
     st.sample(json!({"k": 4, "f": "0->1,1->2,2->3,3->3", "start": 0, "expected": "Ok(3) after 4 applications (first + three re-applications)"}));
     st.sample(json!({"k": 4, "f": "0->1,1->0", "start": 0, "expected": "Err(Invalid) after 4 applications"}));
     st.sample(json!({"k": 4, "f": "0->1,1->Err(BadCodepoint)", "start": 0, "expected": "that BadCodepoint error, after 2 applications"}));
     let cov = Coverage {
-        rule: format!("state = (f, start, Cow style, argument form) with f ranging over ALL {}^{} functions from a {}-element universe of strings to that universe + {{Err(Invalid), Err(BadCodepoint)}}; oracle = RFC 8264 s.7 chain semantics (first application + 3 re-applications), call log must equal the chain; non-trivial = chains needing more than one application", base, k, k),
+        rule: format!("state = (f, start, Cow style, argument form) with f ranging over ALL {}^{} functions from a {}-element universe of strings to that universe + {{Err(Invalid), Err(BadCodepoint)}}; oracle = RFC 8264 s.7 chain semantics (first application + 3 re-applications), call log must equal the chain; plus re-entrant use f(x) = h(stabilize(x, g)) for ALL pairs (g, h) of functions on a 3/4-element universe; non-trivial = chains needing more than one application", base, k, k),
         alphabet: json!({"universe": (0..k).map(name).collect::<Vec<_>>(), "errors": ["Invalid", "BadCodepoint(0x42,7,Disallowed)"]}),
         bound_completed: format!("all {} functions x {} starts x 3 Cow styles (always Owned / Borrowed when unchanged / Borrowed sub-slice whenever the image is a prefix) (x 4 argument forms{})", nf, k, if run.tier == Tier::Quick { "" } else { ", rotated; all 4 on every 7th function" }),
         exhaustive: true,
@@ -255,6 +334,14 @@ pub fn replay(_env: &Env, case: &Case) -> Vec<Violation> {
             }
         }
         "diverging" => check_diverging(&mut st),
+        "nested" if case.nums.len() == 2 => {
+            let parse = |v: &serde_json::Value| -> Vec<usize> { v.as_array().map(|a| a.iter().filter_map(|x| x.as_u64().map(|x| x as usize)).collect()).unwrap_or_default() };
+            let (g, h) = (parse(&case.extra[0]), parse(&case.extra[1]));
+            let k = case.nums[0] as usize;
+            if g.len() == k && h.len() == k {
+                check_nested(&g, &h, k, case.nums[1] as usize, &mut st);
+            }
+        }
         _ => {}
     }
     st.violations
